@@ -233,21 +233,27 @@ func rewriteStubs(dir string, stubs []string, scratch string, replace map[string
 				}
 				_ = variadic
 				res := ""
-				if fd.Type.Results != nil {
-					var sb strings.Builder
-					printer.Fprint(&sb, fset, fd.Type.Results)
-					res = " " + strings.TrimSpace(sb.String())
-					if !strings.HasPrefix(strings.TrimSpace(res), "(") && len(fd.Type.Results.List) > 0 {
-						// printer prints field lists without parens
-						res = " (" + strings.TrimSpace(sb.String()) + ")"
+				if fd.Type.Results != nil && len(fd.Type.Results.List) > 0 {
+					var rs []string
+					for _, fl := range fd.Type.Results.List {
+						var sb strings.Builder
+						printer.Fprint(&sb, fset, fl.Type)
+						k := len(fl.Names)
+						if k == 0 {
+							k = 1
+						}
+						for i := 0; i < k; i++ {
+							rs = append(rs, sb.String())
+						}
 					}
+					res = " (" + strings.Join(rs, ", ") + ")"
 				}
 				recv := ""
 				if fd.Recv != nil {
 					recv = "(zzrecv " + recvExpr + ") "
 				}
 				ret := "return "
-				if fd.Type.Results == nil {
+				if fd.Type.Results == nil || len(fd.Type.Results.List) == 0 {
 					ret = ""
 				}
 				extra = append(extra, fmt.Sprintf("func %s%s(%s)%s { %s%s(%s) }\n", recv, fd.Name.Name, strings.Join(params, ", "), res, ret, stub, strings.Join(args, ", ")))
